@@ -23,7 +23,7 @@ def ForcedOK : List Ev → Prop
 /-- control points of a round before its features list has been read completely -/
 def preList : Pc → Bool
   | .top | .hdr1 | .hdr2 | .feat | .listing _ | .flush | .abort | .readList | .parsing _ | .sloop
-  | .selected _ => true
+  | .selected _ | .blocked _ | .hung _ => true
   | _ => false
 
 structure InvX (C : List Feature) (c : Conf) : Prop where
@@ -52,6 +52,8 @@ theorem invX_step (C : List Feature) (O : Oracle) (c : Conf) (h : InvX C c) : In
     | (intro h; cases h; done)
     | (intro _ h; cases h; done)
     | (refine ⟨⟨tlsFeature_ns ‹tlsFeature C = some _›, ?_, ?_⟩, h1⟩ <;> simp_all <;> done)
+    | (intro h; rcases h with h | h | h <;> cases h; done)
+    | (intro hf _; have h2' := h2 hf; rw [‹c.pc = _›] at h2'; exact h2' rfl)
     | (simp_all [preList, nLists, inParsing, ForcedOK]; done)
     | skip
 
